@@ -205,38 +205,66 @@ Proof.
   apply np_bind; [apply read_tx_no_panic|]. intros [[t a] r] _. auto.
 Qed.
 
-(* values: no panic provided the value reference names a value log the store has *)
-Definition vlog_known (mode : vmode) (vlogs : list bytes) (vlen off : N) : Prop :=
-  match mode with
-  | VEmbedded => True
-  | VSingle => vlogs <> []
-  | VMulti => vlen = 0 \/ vlog_id off = 0 \/
-              (vlog_id off + 255) mod 256 < N.of_nat (length vlogs)
-  end.
+(* values: a store without embedded values and with MaxIOConcurrency = 1 has its one value log
+   (Open refuses to build such a store without it); nothing else is assumed *)
+Definition vlogs_present (mode : vmode) (vlogs : list bytes) : Prop :=
+  match mode with VSingle => vlogs <> [] | _ => True end.
 
 Lemma read_at_np log off n : np (read_at log off n).
 Proof. unfold read_at. destruct (_ <=? _); auto. Qed.
 
-Theorem read_value_no_panic_partial mode txlog vlogs vlen off hval :
-  vlog_known mode vlogs vlen off -> read_value H mode txlog vlogs vlen off hval <> Panic.
+Lemma fetch_vlog_np mode txlog vlogs id : vlogs_present mode vlogs -> np (fetch_vlog mode txlog vlogs id).
 Proof.
-  intros K. change (np (read_value H mode txlog vlogs vlen off hval)).
-  unfold read_value. destruct (N.eqb_spec vlen 0) as [Z|NZ]; auto.
-  unfold read_value_at.
-  destruct ((match mode with VEmbedded => false | _ => true end) && (vlog_id off =? 0) && (0 <? vlen)) eqn:G; auto.
+  intros K. unfold fetch_vlog. destruct mode.
+  - destruct (0 <? id); auto.
+  - destruct (id =? 1); auto. destruct vlogs; auto. simpl in K. congruence.
+  - destruct (nth_error vlogs _); auto.
+Qed.
+
+Lemma read_value_at_np chk mode txlog vlogs vlen off hval :
+  vlogs_present mode vlogs -> np (read_value_at H chk mode txlog vlogs vlen off hval).
+Proof.
+  intros K. unfold read_value_at.
+  match goal with |- np (if ?c then _ else _) => destruct c end; auto.
   apply np_bind.
   - destruct (0 <? vlen); auto.
-    apply np_bind.
-    + unfold fetch_vlog. destruct mode.
-      * destruct (0 <? vlog_id off); auto.
-      * destruct (vlog_id off =? 1); auto. destruct vlogs; auto. simpl in K. congruence.
-      * simpl in K. destruct K as [K|[K|K]]; [congruence| |].
-        { rewrite K in G. cbn [N.eqb andb] in G.
-          destruct (N.ltb_spec 0 vlen); [discriminate | lia]. }
-        destruct (nth_error vlogs (N.to_nat ((vlog_id off + 255) mod 256))) eqn:E; auto.
-        apply nth_error_None in E. lia.
-    + intros log _. destruct (off_negative off); auto. apply read_at_np.
+    apply np_bind; [apply fetch_vlog_np; exact K|].
+    intros log _. destruct (off_negative off); auto. apply read_at_np.
   - intros b _. match goal with |- np (if ?c then _ else _) => destruct c end; auto.
 Qed.
 
+(* C09 "never crashes while reading", values: for EVERY value reference (any vLen, any vOff incl.
+   value-log ids the store does not have), any log contents and any MaxValueLen, ReadValue returns
+   a value or an error *)
+Theorem read_value_no_panic mvl mode txlog vlogs vlen off hval :
+  vlogs_present mode vlogs -> read_value H mvl mode txlog vlogs vlen off hval <> Panic.
+Proof.
+  intros K. change (np (read_value H mvl mode txlog vlogs vlen off hval)).
+  unfold read_value. destruct (vlen =? 0); auto. destruct (mvl <? vlen); auto.
+  apply read_value_at_np. exact K.
+Qed.
+
+Theorem export_values_no_panic chk mvl mode txlog vlogs :
+  vlogs_present mode vlogs -> forall es i trunc,
+  export_values H chk mvl mode txlog vlogs es i trunc <> Panic.
+Proof.
+  intros K. induction es as [|e es IH]; intros i trunc; cbn [export_values]; [discriminate|].
+  destruct (mvl <? e_vlen e); [discriminate|].
+  pose proof (read_value_at_np chk mode txlog vlogs (e_vlen e) (e_voff e) (e_hval e) K) as R.
+  destruct (read_value_at H chk mode txlog vlogs (e_vlen e) (e_voff e) (e_hval e)) as [v|c|];
+    [| |exfalso; apply R; reflexivity].
+  - destruct trunc; [discriminate|].
+    apply (np_bind _ _ (IH (i + 1) false)). intros [t l] _. discriminate.
+  - destruct (c =? EEOF); [|discriminate].
+    destruct (negb trunc && (0 <? i)); [discriminate|].
+    apply (np_bind _ _ (IH (i + 1) true)). intros [t l] _. discriminate.
+Qed.
+
 End Hash.
+
+(* the buffer ReadValue allocates never exceeds MaxValueLen, whatever vLen the record carries *)
+Theorem read_value_alloc_bounded mvl vlen : read_value_alloc mvl vlen <= mvl.
+Proof.
+  unfold read_value_alloc. destruct (N.eqb_spec vlen 0); [lia|].
+  destruct (N.ltb_spec mvl vlen); lia.
+Qed.
